@@ -68,6 +68,7 @@ def funnel_stage(work, binp, ev, rep, tier):
     # and -r treats "." / "./" before the funnel and refuses the empty result by design)
     NEED_ENTRY = ("xattr-file", "sqfs2tar-d", "sqfs2tar-r", "tar2sqfs-r", "pack-link", "tar-hlink")
     jobs = [(m, s_) for s_ in strs for m in MODES if not (m in NEED_ENTRY and canon[s_] == "")]
+    jobs += [("image-name", s_) for s_ in strs]
 
     def tar_names(data):
         out, off = [], 0
@@ -90,6 +91,20 @@ def funnel_stage(work, binp, ev, rep, tier):
         img = d + "/o.sqfs"
         WRONG = [3]
         try:
+            if mode == "image-name":
+                # a crafted image (independent encoder) whose root holds one file of that NAME, next to a harmless one; what sqfs2tar writes as member names
+                root = {"kind": "dir", "name": b"", "mode": 0o755, "raw_order": True,
+                        "children": [{"kind": "file", "name": s_.encode(), "mode": 0o644, "data": b"X"}, {"kind": "file", "name": b"zzz", "mode": 0o644, "data": b"Y"}]}
+                raw, _ = sqfsimg.encode(root, {"frag": True, "block_size": 4096})
+                open(img, "wb").write(raw)
+                rc, o, e = sh([tools + "/sqfs2tar", img], timeout=30)
+                names = tar_names(o) if rc == 0 else []
+                hit = [n for n in names if n not in ("zzz",)]
+                if rc == 0 and hit == [s_]:
+                    return mode, s_, 0, [ENC[c] for c in s_]
+                if hit:
+                    return mode, s_, 0, [3]                  # something else than the name itself was written for it
+                return mode, s_, 1, []
             if mode == "packfile":
                 open(d + "/p.txt", "w").write("dir %s 0755 0 0\n" % s_)
                 rc, o, e = sh([tools + "/gensquashfs", "-q", "-f", "-F", d + "/p.txt", img], timeout=30)
